@@ -90,15 +90,30 @@ def gen_spec(w, r, bi=None):
     attrs = sorted(set(attrs), key=repr)
     if r.random() < 0.6:
         return ["ac", V.i64(r), pick(r, syms), attrs]
-    return ["aa", V.i64(r), V.i64(r), pick(r, syms), pick(r, syms), attrs]
+    return ["aa", 0 if r.random() < 0.15 else V.i64(r), V.i64(r), pick(r, syms), pick(r, syms), attrs]
 
 
 def gen_off(w, r, bi):
     n = w.m.nodes[bi]
     keys = sorted(n.a["se"])
     x = r.random()
+    A = n.a["address"]
+    if A is not None and x < 0.25:
+        # land on an ADDRESS where another interval already has an expression (overlapping
+        # intervals in different sections / modules)
+        tgt = []
+        for ol, on in w.m.nodes.items():
+            if on.kind == "bi" and ol != bi and on.a["address"] is not None:
+                tgt += [on.a["address"] + o for o in on.a["se"] if on.a["address"] + o - A >= 0]
+        inside = [t for t in tgt if t - A < n.a["size"]]
+        if inside:
+            return pick(r, sorted(inside)) - A
+        if tgt and r.random() < 0.3:
+            return pick(r, sorted(tgt)) - A
     if x < 0.4 and keys:
         return pick(r, keys)
+    if x < 0.7 and n.a["size"] > 0:
+        return r.randrange(0, min(n.a["size"], 2**32))  # inside the declared extent
     if x < 0.9:
         return V.small(r, max(4, min(20, n.a["size"] + 3)))
     return V.u64(r, 1.0)
